@@ -126,6 +126,7 @@ def g_frames(modes):
                 jobs.append((W.unit_response, (ccn, mode, True)))
         jobs.append((W.unit_command, (None, mode, True)))
         jobs.append((W.unit_response, (None, mode, False)))
+        jobs.append((W.unit_response, ("<absent>", mode, False)))
         jobs.append((W.unit_stream, (mode,)))
     # the contract of is_parameter_encryption used by the frame units is proved here (areas of 0..3 sessions)
     jobs += [(W.unit_is_parameter_encryption, (n,)) for n in range(4)]
